@@ -90,13 +90,17 @@ def plan(tier):
                                  "navigators": len(navs)}
     if tier != "quick":
         # deeper slices of the space on smaller sub-corpora
-        d4 = corpus.docs(4, (None, 1000, "a"), ("a", "b"))
+        # (a stride of the 4-node documents keeps the tier near 40 minutes:
+        # the full 1162 x 74088 product alone took over an hour)
+        d4 = corpus.docs(3, (None, 1000, "a"), ("a", "b")) + \
+            corpus.docs(4, (None, 1000, "a"), ("a", "b"))[146::4]
         voc = paths.vocab("c01-quick")
         p3 = [(p, paths.render(p, "."), paths.render(p, "/"))
               for p in paths.upto(voc, 3) if len(p) == 3]
         EXTRA.append((d4, p3))
-        dfull = corpus.docs(4, (None, 1000, "a", "1000"),
-                            ("a", "b", "1000")) + corpus.collision_pack()
+        dfull = corpus.docs(3, (None, 1000, "a", "1000"),
+                            ("a", "b", "1000")) + corpus.collision_pack() + \
+            corpus.merge_pack()
         pf = [(p, paths.render(p, "."), paths.render(p, "/"))
               for p in paths.upto(vfull, 2)]
         EXTRA.append((dfull, pf))
